@@ -5,6 +5,22 @@ VD = os.environ.get("VERIF_DIR", "/verif"); R = os.environ.get("VERIF_REPO", "/r
 B = os.environ.get("VERIF_BUILD", VD + "/.build"); V = VD + "/mc/overlay"
 os.makedirs(B + "/ovl", exist_ok=True)
 base = {R + "/src/free5gclib/nas/security/snow3g/zz_verif_export.go": V + "/snow3g/export.go"}
+# tight capacity (C14 and every other user of the harness binary): the APER decoder's input buffers -- the caller's
+# PDU and the copy made of every open-type value -- get cap == len, so that a read behind the end of the data that
+# Go's allocator would otherwise hide in the spare capacity of a size class (value instead of panic, depending on
+# the length alone) panics for every length. Transparent for code that stays inside len; skipped silently when
+# the two anchor lines are no longer there (the tree is then checked exactly as it is).
+ap = R + "/src/free5gclib/aper/aper.go"
+try:
+    s = open(ap).read()
+    t = s.replace("\terr := parseField(v, pdOpenType, params)\n",
+                  "\tpdOpenType.bytes = pdOpenType.bytes[:len(pdOpenType.bytes):len(pdOpenType.bytes)]\n\terr := parseField(v, pdOpenType, params)\n", 1)
+    t = t.replace("\tpd := &perBitData{b, 0, 0}\n", "\tpd := &perBitData{b[:len(b):len(b)], 0, 0}\n", 1)
+    if t != s:
+        open(B + "/ovl/aper_tightcap.go", "w").write(t)
+        base[ap] = B + "/ovl/aper_tightcap.go"
+except OSError:
+    pass
 json.dump({"Replace": base}, open(B + "/overlay.json", "w"))
 # emulator: "time" -> vtime in stg-utg.go and src/stgutg/*.go
 emu = {R + "/src/tglib/vtime/vtime.go": V + "/vtime/vtime.go"}
